@@ -2,7 +2,9 @@
 R1: BackendBatching.tla (the batchers of datadog/newrelic, influxdb, otlp, cloudwatch and the statsd relay as automata over the items a
     flush walks through) composed with the BatchProp monitor; deviations (open batch not emitted, count after the check, relay fit
     off by the newline) must be refuted.  R2: BatchSched.tla aggregate states x configurations.  S1: harness c17 -- real aggregator ->
-    every real backend variant -> strict protocol parsers (the relay: gostatsd's own parser).  R3: BatchTrace.tla judges every flush."""
+    every real backend variant -> strict protocol parsers (the relay: gostatsd's own parser).  R3: BatchTrace.tla judges every flush.
+Every seventh plain case is also flushed as the maps of six aggregators (MetricMap.Split) handed to the backend at the same time: the flush is
+    what they emit together."""
 import json
 import os
 import re
